@@ -85,11 +85,68 @@ def distribution(cases, res):
             'with_comments': sum(1 for c in cases if '/*' in c['text'] or '//' in c['text'])}
 
 
+def extra_stage(v, tier, rng, impl):
+    """models built and edited through the public API (the second half of the quantifier): modules with loaded-like and
+    many NEW elements (uid 0) of the same kinds, pushes in arbitrary order, then write -> load -> compare -> write"""
+    from checks import modlib as ml
+    n = 120 if tier == 'quick' else 2000
+    cases = []
+    for i in range(n):
+        st = ml.gen_module(rng, rng.choice([0, 2, 8, 30]), with_new=0, kinds=rng.choice([None, [2, 11], [11]]))
+        st[0] = []
+        ops = []
+        kinds = rng.choice([[11], [2, 11], list(range(20))])
+        for j in range(rng.choice([1, 5, 40, 70])):
+            k = rng.choice(kinds)
+            ops.append(['push', k, ml.el(ml.TAGS[k], 'new_%03d_%s' % (j, rng.choice('abxyz')), 0, 0, 2, 1)])      # T::new(): uid 0, line 0
+        if rng.random() < 0.3:
+            ops.insert(rng.randrange(len(ops) + 1), ['sni'])
+        ops.append(['rt'])
+        cases.append([1, st, ops])
+    out = fw.run_sharded([impl, 'C15'], [sx.enc(c) for c in cases])
+    fails = []
+    rt_ok = 0
+    for c, line in zip(cases, out):
+        o = ml.decode_out(line)
+        why = None
+        if o is None:
+            why = 'process died'
+        elif o[-1] == ['PANIC']:
+            why = None if any(x[0] == 'sni' for x in c[2]) else 'panic while writing / reloading an API-built model'
+        else:
+            flags = o[-1][2] if len(o[-1]) >= 3 else None
+            if not flags:
+                why = 'no round-trip observation'
+            elif not flags[0]:
+                why = 'the text written from an API-built model does not load'
+            elif not flags[1]:
+                why = 'load(write(M)) != M for a model edited through the API (%d pushes)' % sum(1 for x in c[2] if x[0] == 'push')
+            elif not flags[2]:
+                why = 'write(load(write(M))) != write(M) for a model edited through the API'
+            else:
+                rt_ok += 1
+        if why:
+            fails.append({'payload': {'kind': 'C15', 'case': sx.enc(c), 'case_readable': c, 'why': why,
+                                      'stage': 'W (API-built models: push histories, write, reload)'}})
+    v.coverage['api_built_models'] = len(cases)
+    v.coverage['api_built_round_trips_ok'] = rt_ok
+    return fails[:3]
+
+
 def check(tier, seed):
     import checks.c01 as me
     return loadcheck.run(me, tier, seed)
 
 
 def replay(r):
+    if r.get('kind') == 'C15':
+        from checks import modlib as ml
+        impl = fw.build_harness()
+        line = fw.run_single([impl, 'C15'], r['case'])
+        o = ml.decode_out(line)
+        print('history:', str(r.get('case_readable'))[:1500])
+        print('last observation (loads, model equal, text equal):', o[-1][2] if o and len(o[-1]) >= 3 else o and o[-1])
+        ok = o and len(o[-1]) >= 3 and all(o[-1][2])
+        return 0 if ok else 1
     import checks.c01 as me
     return loadcheck.replay(r, me)
